@@ -7,6 +7,7 @@ mod hist;
 mod meta;
 mod parse;
 mod pipes;
+mod probe;
 mod sem;
 mod small;
 #[cfg(feature = "frontend")]
@@ -105,6 +106,7 @@ fn run(cfg: &Cfg, rep: &mut Report) {
         #[cfg(feature = "frontend")]
         "c19" => stream::c19(cfg, rep),
         "c20" => small::c20(cfg, rep),
+        "probe" => probe::probe(cfg, rep),
         other => {
             eprintln!("unknown property {}", other);
             std::process::exit(64);
